@@ -148,8 +148,9 @@ def register18(w):
                note="with Python paths disabled the expression is never handed to eval() (ghost trace of eval calls stays empty) and the documented false value is returned", props=P18)
     # ------------------------------------------------------------------------------ C18 (c) locals / repeat push-pop
     w.contract(CX + "pushLocals", inline=True, modifies=["self.localStack", "self.locals"], raises={}, returns="none",
-               ensures=["len(self.localStack) == len(old(self.localStack)) + 1", "self.localStack[len(self.localStack) - 1] is old(self.locals)"], props=P18,
-               note="the caller's locals object itself is saved; the working copy is a new dict")
+               ensures=["len(self.localStack) == len(old(self.localStack)) + 1", "self.localStack[len(self.localStack) - 1] is old(self.locals)",
+                        "self.locals is not old(self.locals)"], props=P18,
+               note="the caller's locals object itself is saved; the working copy is a new dict, so nothing bound afterwards can reach the saved one")
     w.contract(CX + "popLocals", inline=True, requires=["len(self.localStack) > 0"], modifies=["self.localStack", "self.locals"], raises={}, returns="none",
                ensures=["len(self.localStack) == len(old(self.localStack)) - 1", "self.locals is old(self.localStack)[len(old(self.localStack)) - 1]"], props=P18,
                note="pop restores exactly the object pushLocals saved: bindings made in between are gone")
@@ -181,6 +182,12 @@ def register18(w):
 
 def register18b(w):
     P18 = ["C18"]
+    c = w.contracts[("pygopherd/handlers/tal.py::TALFileHandler.canhandlerequest", "TALFileHandler")]
+    SEC = "'handlers.tal.TALFileHandler', 'allowpythonpath'"
+    c.ensures = c.ensures + ["implies(result and self.config.has_option(%s), (self.allowpythonpath != 0) == self.config.getboolean(%s))" % (SEC, SEC),
+                             "implies(result and not self.config.has_option(%s), self.allowpythonpath == 1)" % SEC]
+    c.props = set(c.props) | {"C18"}
+    c.note = (c.note or "") + " C18: the python: switch the handler hands to the template context is exactly the configured boolean (any spelling configparser accepts), 1 when unset"
     CX = E + "Context."
     TI = T + "TemplateInterpreter."
     IC = ["TemplateInterpreter", "HTMLTemplateInterpreter"]
